@@ -30,9 +30,15 @@ def demo(seed_dir):
 def main():
     sid = sys.argv[1]
     ids = sys.argv[2:] or [sid[:3]]
+    if os.environ.get("SEED_FLAT") and len(sys.argv) <= 2:
+        # re-run: the checks recorded at the first confirmation
+        try:
+            ids = list(json.load(open(f"{os.environ.get('SEED_ROOT')}/{sid}/meta.json"))["checks"].keys())
+        except Exception:
+            pass
     root = os.environ.get("SEED_ROOT", "/tmp/seed")
     suffix = os.environ.get("SEED_SUFFIX", "")
-    src = f"{root}/{sid}/seed"
+    src = f"{root}/{sid}/seed" if not os.environ.get("SEED_FLAT") else f"{root}/{sid}"
     if not os.path.isdir(L.REPO):
         L.setup()
     L.sync_verif()
@@ -52,8 +58,15 @@ def main():
         print(f"   {p}: {'CAUGHT' if x['exit']==1 else ('inconclusive' if x['exit']==2 else 'MISSED')} in {x['seconds']}s  {x['message'][:260]}")
     dst = f"{L.SRC}/seeded/{sid}{suffix}"
     os.makedirs(dst, exist_ok=True)
-    for f in os.listdir(src):
-        shutil.copy(os.path.join(src, f), dst)
+    if os.path.realpath(dst) != os.path.realpath(src):
+        for f in os.listdir(src):
+            shutil.copy(os.path.join(src, f), dst)
+    old_meta = {}
+    if os.path.exists(dst + "/meta.json"):
+        try:
+            old_meta = json.load(open(dst + "/meta.json"))
+        except Exception:
+            old_meta = {}
     meta = {
         "id": sid + suffix, "property": sid[:3],
         "confirmed": confirmed,
@@ -63,6 +76,16 @@ def main():
         "ran": [f"git apply patch.diff (scratch worktree)", "cargo test --workspace --no-fail-fast --offline", "demo with and without the change"] + [f"./check {p} quick" for p in ids],
         "checks": {p: {"caught": x["exit"] == 1, "exit": x["exit"], "seconds": x["seconds"], "message": x["message"]} for p, x in checks.items()},
     }
+    if os.environ.get("SEED_FLAT"):
+        # a re-run against the final machinery: keep the original confirmation record
+        for k in ("confirmed", "repo_tests_with_change", "demo_with_change", "demo_without_change", "note"):
+            if k in old_meta and k != "note":
+                meta.setdefault("first_confirmation", {})[k] = old_meta[k]
+        if "note" in old_meta:
+            meta["note"] = old_meta["note"]
+        if "first_confirmation" in old_meta:
+            meta["first_confirmation"] = old_meta["first_confirmation"]
+        meta["property"] = sid[:3]
     json.dump(meta, open(dst + "/meta.json", "w"), indent=1)
 
 if __name__ == "__main__":
